@@ -1,9 +1,9 @@
--- GENERATED from /tmp/wt_c15 by checks/ on every run. Do not edit.
+-- GENERATED from /repo by checks/ on every run. Do not edit.
 import TbbVerif.Core.Cint
 namespace TbbVerif.Generated.C15
 open TbbVerif.Cint
 def initialBufferSize : Nat := 4
 def hashInitialSize : Nat := 8
-def bufferPopMode : Nat := 0
+def bufferPopMode : Nat := 1
 
 end TbbVerif.Generated.C15
